@@ -225,8 +225,13 @@ fn run(ctx: &Ctx) -> Run {
                 run.count("relabelling.exhaustive_passes_under_concurrency");
             }
             let class = *rng.pick(&["uniform", "seam", "seam", "dvertex", "edgemid", "fcentre", "polar", "diagonal", "axes"]);
-            let (lon, lat) = gen::point(&mut rng, &fr, class);
+            let (mut lon, lat) = gen::point(&mut rng, &fr, class);
             run.count(&format!("class.{class}"));
+            if i % 8 == 3 {
+                // the same place written one or more turns away (0..360 convention, accumulated headings)
+                lon = gen::wrap(&mut rng, lon);
+                run.count("longitudes_written_turns_away");
+            }
             check_nearest(run, lon, lat, class);
         }
     });
